@@ -42,7 +42,7 @@ fn info(tier: Tier) -> CheckInfo {
 }
 
 const REL: [&str; 4] = ["identical", "lower-seq", "equal-seq-other-value", "higher-seq"];
-const CAS: [&str; 3] = ["no-cas", "cas=inflight-seq", "cas-other"];
+const CAS: [&str; 5] = ["no-cas", "cas=inflight-seq", "cas-other", "cas-above-inflight-seq", "cas=i64::MAX"];
 
 fn sk() -> ed25519_dalek::SigningKey {
     krpc::signing_key(0x71)
@@ -116,7 +116,9 @@ fn part1(cfg: &P1Cfg, track: bool) -> Out1 {
     let cas = match cfg.cas {
         0 => None,
         1 => Some(5),
-        _ => Some(4),
+        2 => Some(4),
+        3 => Some(6),
+        _ => Some(i64::MAX),
     };
     w.sync_api = cfg.sync;
     let c1 = w.call_put_mutable(a, p1, None);
@@ -528,7 +530,7 @@ fn run(tier: Tier, shard: usize, nshards: usize, _seed: u64) -> Partial {
         let base = part1(&P1Cfg { rel: 0, cas: 0, salted, at: None, sync: false, dead: false, tokenless: false }, false);
         out.gauge_max("events_in_first_put_lifetime", base.events as u64);
         for rel in 0..4 {
-            for cas in 0..3 {
+            for cas in 0..CAS.len() {
                 let mut placements: Vec<Option<u32>> = (0..=base.events).map(Some).collect();
                 placements.push(None);
                 for (at, sync) in placements.into_iter().flat_map(|p| [(p, false), (p, true)]) {
